@@ -10,6 +10,7 @@ point-and-permute bits), every well-formed circuit, every input.
 -/
 import MpcVerif.Proofs.Garble
 import MpcVerif.Proofs.GarbleBig
+import MpcVerif.Proofs.GarbleTape
 import MpcVerif.Model.LabelBV
 
 namespace Mpc
@@ -292,5 +293,108 @@ instance (c : Circuit) : Decidable c.singleAssign := by
 
 example : exampleCircuit.singleAssign := by decide
 example : tweakPrefix exampleCircuit.gates = #[0, 2, 3, 4, 4, 4] := by decide +kernel
+
+/-! ## The input width: every input wire gets its pair from the random stream
+
+`Circuit.Garble` draws `R` and one zero-label per input wire from ONE stream
+(Model/GarbleTape.lean): slot 0 is `R`, slot `i + 1` belongs to input wire `i`.
+The theorems of the first section take `r` and `inl` as given; this section
+states, for EVERY input width, that the garbling from a stream assigns every
+input wire - the last one as well as the first - the pair `(slot, slot ⊕ R)`,
+that the stream must hold `1 + nIn` labels and no more are looked at, and that
+the number of labels fetched per read does not matter.  The harness runs
+circuits whose input width sits one below / on / one above every multiple of
+256 up to 4096 (thorough: of 128 up to 8192, and 2^13 .. 2^17, 2^20) and around
+every integer constant found in the garbling code path, in which every input
+wire reaches the outputs; it checks `l1 = l0 ⊕ R` on every wire of the real
+`Garbled` value and ties the wire pairs to `garbleSlotsTR` byte for byte. -/
+
+/-- Every input wire is assigned, by construction: for every well-formed
+circuit of any input width and every stream holding at least `1 + nIn` labels,
+`Garble` succeeds, `R` is slot 0 after `SetS(true)`, and input wire `i` carries
+exactly the pair `(slot (i+1), slot (i+1) ⊕ R)`. -/
+theorem C01_every_input_wire_assigned (H : Hash L) (c : Circuit) (fixS : L → L) (tape : List L)
+    (hwf : c.WF = true) (hlen : 1 + c.nIn ≤ tape.length) :
+    ∃ G, c.garbleTape H fixS tape = some G ∧ G.r = fixS (tape[0]'(by omega)) ∧
+      ∀ i (hi : i < c.nIn), G.wires.get i = ⟨tape[i + 1]'(by omega), tape[i + 1]'(by omega) ^^^ G.r⟩ := by
+  refine ⟨c.garbleSlots H fixS (fun k => tape.getD k default), ?_, ?_, ?_⟩
+  · exact garbleTape_some c H fixS tape hlen
+  · have h0 : 0 < tape.length := by omega
+    simp [Circuit.garbleSlots, Circuit.garble, List.getD, h0]
+  · intro i hi
+    have hi1 : i + 1 < tape.length := by omega
+    have h0 : 0 < tape.length := by omega
+    have hr : (c.garbleSlots H fixS (fun k => tape.getD k default)).r = fixS (tape.getD 0 default) := by
+      simp [Circuit.garbleSlots, Circuit.garble]
+    rw [hr]
+    simp only [Circuit.garbleSlots]
+    rw [garble_input_wires H c _ _ hwf i hi]
+    simp [List.getD, hi1, h0]
+
+example : exampleCircuit.WF = true ∧ 1 + exampleCircuit.nIn ≤ [1#128, 2#128, 3#128].length := by decide
+
+/-- With the select bit of `R` forced (`SetS(true)`), the two labels of every
+input wire differ and are `R` apart - in particular no input wire is left with
+the all-zero pair of a fresh buffer or with a pair that belongs to another `R`. -/
+theorem C01_input_pairs_offset (H : Hash L) (c : Circuit) (fixS : L → L) (hfix : ∀ x, sbit (fixS x) = true)
+    (tape : List L) (hwf : c.WF = true) (hlen : 1 + c.nIn ≤ tape.length) :
+    ∃ G, c.garbleTape H fixS tape = some G ∧ sbit G.r = true ∧
+      ∀ i, i < c.nIn → (G.wires.get i).l1 = (G.wires.get i).l0 ^^^ G.r ∧
+        (G.wires.get i).l0 ≠ (G.wires.get i).l1 ∧
+        ¬ ((G.wires.get i).l0 = LabelAlg.zero ∧ (G.wires.get i).l1 = LabelAlg.zero) := by
+  obtain ⟨G, hG, hr, hw⟩ := C01_every_input_wire_assigned H c fixS tape hwf hlen
+  have hs : sbit G.r = true := by rw [hr]; exact hfix _
+  refine ⟨G, hG, hs, fun i hi => ?_⟩
+  rw [hw i hi]
+  have hne : tape[i + 1]'(by omega) ≠ tape[i + 1]'(by omega) ^^^ G.r := by
+    intro heq
+    have : tape[i + 1]'(by omega) ^^^ (tape[i + 1]'(by omega) ^^^ G.r) = (LabelAlg.zero : L) := by
+      rw [← heq]; simp
+    rw [xor_xor_cancel_left] at this
+    exact ne_zero_of_sbit G.r hs this
+  refine ⟨rfl, hne, fun hz => ?_⟩
+  exact hne (hz.1.trans hz.2.symm)
+
+example : ∀ x : BitVec 128, sbit (setS x) = true := setS_msb
+
+/-- A stream shorter than `1 + nIn` labels makes `Garble` fail (no partly
+assigned garbling is returned), whatever the input width. -/
+theorem C01_short_stream_fails (H : Hash L) (c : Circuit) (fixS : L → L) (tape : List L)
+    (hshort : tape.length < 1 + c.nIn) : c.garbleTape H fixS tape = none :=
+  garbleTape_none c H fixS tape hshort
+
+example : [1#128, 2#128].length < 1 + exampleCircuit.nIn := by decide
+
+/-- The batch size of the reads is irrelevant: a garbler that fetches its
+`1 + nIn` labels in batches of at most `b` labels per read (any `b > 0`, any
+input width - in particular widths that are a multiple of `b`, one below, one
+above) obtains the first `1 + nIn` labels of the stream and hence the same
+garbling as the garbler that reads one label at a time. -/
+theorem C01_batch_size_irrelevant (H : Hash L) (c : Circuit) (fixS : L → L) (tape : List L)
+    (b : Nat) (hb : 0 < b) (hlen : 1 + c.nIn ≤ tape.length) :
+    drawBatched b c.slotsUsed tape = tape.take (1 + c.nIn) ∧
+    c.garbleTape H fixS (drawBatched b c.slotsUsed tape) = c.garbleTape H fixS tape := by
+  have hd : drawBatched b c.slotsUsed tape = tape.take (1 + c.nIn) := by
+    rw [drawBatched_eq_take b hb]; rfl
+  refine ⟨hd, ?_⟩
+  rw [hd, garbleTape_some c H fixS tape hlen,
+    garbleTape_some c H fixS _ (by rw [List.length_take]; omega)]
+  congr 1
+  apply garbleSlots_congr
+  intro k hk
+  exact getD_take_lt tape _ k default hk
+
+example : drawBatched 2 5 [1, 2, 3, 4, 5, 6, 7] = [1, 2, 3, 4, 5] ∧ drawBatched 4 4 [1, 2, 3, 4, 5] = [1, 2, 3, 4] ∧
+    drawBatched 4 5 [1, 2, 3, 4, 5, 6] = [1, 2, 3, 4, 5] := by decide
+
+/-- The slot-based garbling the driver executes (constant-stack gate loop) is
+the model, for every circuit and stream. -/
+theorem C01_driver_slots (H : Hash L) (c : Circuit) (fixS : L → L) (slot : Nat → L) :
+    c.garbleSlotsTR H fixS slot = c.garbleSlots H fixS slot ∧
+    (c.garbleSlots H fixS slot).r = fixS (slot 0) :=
+  ⟨garbleSlotsTR_eq c H fixS slot, rfl⟩
+
+example : (exampleCircuit.garbleSlotsTR (hashOf id) setS (fun k => BitVec.ofNat 128 k)).r = setS 0#128 := by
+  rw [(C01_driver_slots _ _ _ _).1, (C01_driver_slots _ _ _ _).2]
 
 end Mpc
